@@ -136,3 +136,8 @@ package xstar
 //@   before select#1 assert p2 != p
 //@   before select#1 assert eqseq(m2.Header, m.Header)
 //@   before select#1 assert eqseq(m2.Body, m.Body)
+// ---- generated Info contracts (tools/gen_info_contracts.py) ----
+//@ func (*socket).Info
+//@   ensures result.Self == 1600 && result.Peer == 1600 && result.SelfName == "star" && result.PeerName == "star"
+//@
+// ---- end generated Info contracts ----
